@@ -25,6 +25,10 @@ func main() {
 		rules.DumpHandWrittenDigests(core.NewRepo(*repo))
 		return
 	}
+	if *dump != "" && *dumpFn == "RECURSION" {
+		rules.DumpRecursion(&rules.Ctx{Repo: core.NewRepo(*repo), R: core.NewReport("dump", "quick", "/tmp")})
+		return
+	}
 	if *dump != "" && *dumpFn == "NFDIGESTS" {
 		rules.DumpNFDigests(core.NewRepo(*repo))
 		return
